@@ -35,7 +35,7 @@ OPS = ['eq', 'ne', 'lt', 'le', 'gt', 'ge']
 # (raw text, quote character)
 STRINGS = [
     ('plain', "'"), ('a .eq. b', "'"), ('x.lt.y', '"'), ("it's .ge. ok", "'"), ("it's .ge. ok", '"'),
-    ('say "hi" .ne.', '"'), ('! not a comment .gt.', "'"), ('ubound(x, 1) < n', "'"),
+    ('say "hi" .ne.', "'"), ('! not a comment .gt.', "'"), ('ubound(x, 1) < n', "'"),
     ('if (a .le. b) then', '"'), ('a == b /= c', "'"), ('& .eq. &', "'"),
 ]
 COMMENTS = [
@@ -128,6 +128,12 @@ def cmp(draw, env, depth=0):
     return ['cmp', draw(st.sampled_from(OPS)), draw(int_expr(env, depth + 1)), draw(int_expr(env, depth + 1)), draw(_spell())]
 
 
+def _not_a_not(c):
+    while c[0] == 'paren':
+        c = c[1]
+    return c[0] != 'not'
+
+
 @st.composite
 def cond(draw, env, depth=0):
     kinds = ['cmp', 'cmp', 'cmp'] + ([] if depth >= 2 else ['and', 'or', 'and', 'not', 'paren', 'lvar', 'scmp'])
@@ -140,7 +146,8 @@ def cond(draw, env, depth=0):
         cm = draw(st.integers(0, len(COMMENTS) - 1)) if brk == 2 else None
         return [k, draw(cond(env, depth + 1)), draw(cond(env, depth + 1)), brk, cm, draw(st.booleans())]
     if k == 'not':
-        return ['not', ['paren', draw(cond(env, depth + 1))]]
+        # (never .not. directly applied to .not.: loki prints that as `.not..not.`, which is not Fortran; owner: C06)
+        return ['not', ['paren', draw(cond(env, depth + 1).filter(_not_a_not))]]
     if k == 'paren':
         return ['paren', draw(cond(env, depth + 1))]
     if k == 'lvar':
@@ -341,8 +348,11 @@ def inputs(draw):
 class R:
     """render context"""
 
-    def __init__(self, fixed=False):
+    def __init__(self, fixed=False, keep_checks=False):
         self.fixed = fixed
+        self.keep_checks = keep_checks      # fixed rendering that still contains the (removable) check conditionals
+        self.removable_codes = []           # STOP codes of the check conditionals the UBOUND fix may remove
+        self.next_code = 1
         self.n_f77 = 0          # old-style operator tokens rendered in code
         self.n_decoy_str = 0    # string literals containing an operator / ubound decoy
         self.n_decoy_com = 0
@@ -570,7 +580,6 @@ def shape_text(arr, spec, fixed):
 
 def r_ubound_checks(r, rc, ind):
     """the check conditionals; returns nothing, appends lines (none of them for fixed dummies when rc.fixed)"""
-    code = 1
     for arr in ('x', 'z', 'y'):
         spec = r['ub'][arr]
         if spec['mode'] not in ('full', 'partial'):
@@ -592,10 +601,13 @@ def r_ubound_checks(r, rc, ind):
             else:
                 conds.append(f'{bn}{rc.op("gt", sp)}{ub}')
         groups = [conds] if spec.get('joined') and len(conds) > 1 else [[c] for c in conds]
-        if rc.fixed and will_be_fixed(spec):
-            code += len(groups)
+        if rc.fixed and will_be_fixed(spec) and not rc.keep_checks:
+            rc.next_code += len(groups)
             continue
         for g in groups:
+            code = rc.next_code
+            if will_be_fixed(spec):
+                rc.removable_codes.append(code)
             ctext = f' .{spec["joined"] or "or"}. '.join(g)
             stop = {'stop': [f'stop {code}'], 'print+stop': [f"print *, '{arr} too short, ubound({arr}, 1) .lt. n'", f'stop {code}'],
                     'errorstop': [f'error stop {code}']}[spec['body']]
@@ -606,7 +618,7 @@ def r_ubound_checks(r, rc, ind):
                 for sline in stop:
                     _emit(rc, ind + 2, sline)
                 _emit(rc, ind, _kw(r, 'endif' if r['endif_joined'] else 'end if'))
-            code += 1
+            rc.next_code += 1
 
 
 def decl_lines(r, fixed):
@@ -681,9 +693,9 @@ def r_routine(r, rc, ind, extra_args=0):
     _emit(rc, ind, f'{_kw(r, "end function" if r["kind"] == "func" else "end subroutine")} {name}')
 
 
-def render_file(model, fixed=False, extra_args=None):
-    """-> (text, render context with ground-truth counters)"""
-    rc = R(fixed)
+def render_file(model, fixed=False, extra_args=None, keep_checks=False):
+    """-> (text, render context with ground-truth counters); STOP codes of the check conditionals are unique per file"""
+    rc = R(fixed, keep_checks)
     extra_args = extra_args or {}
     mod = model.get('module')
     if mod:
